@@ -752,6 +752,15 @@ func C18(c *core.Ctx) {
 		c.Decide(nAdd > 0 && bad == "", "R18.8", "cost-bounded-before-addition", p.Pos(ru.Pos()), fmt.Sprintf("%d additions to an advertised cost, each behind 'advertised cost < infinity'", nAdd), "ribUpdate adds the link cost to "+bad+" before that cost was compared with infinity: the wire-valid cost 2^64-1 wraps around to 0, the destination is installed as a cost-0 route and re-advertised with cost 0")
 	}
 
+	// ---- R18.14 the RIB and the neighbour table identify a router by its name, not by the
+	// 64-bit hash of the name alone
+	{
+		n := hashKeyRule(c, "R18.14", []string{"dv/table"}, func(id string) bool {
+			return strings.Contains(id, "dv/table.Rib") || strings.Contains(id, "NeighborTable")
+		}, "a destination whose name has the hash of another one is merged into that one's RIB entry: it is never advertised and never gets a route, so the network does not converge to a shortest path for it")
+		c.Floor("R18.14", "maps of the RIB and the neighbour table indexed by a name's hash", n, 1)
+	}
+
 }
 
 // c18Selection (R18.4): RibEntry.refresh keeps, in loop-carried variables, the best and the
